@@ -641,8 +641,9 @@ pub fn spaces(tier: Tier) -> Vec<Space> {
         let us = strings(3);
         let ls = strings(2);
         let (nu, nl) = (us.len() as u64, ls.len() as u64);
-        v.push(Space::new("from-transaction-programs", nu * nl, move |case, acc| {
-            let c = coords(case.idx, &[nu, nl]);
+        v.push(Space::new("from-transaction-programs", nu * nl * 2, move |case, acc| {
+            let c = coords(case.idx, &[nu, nl, 2]);
+            let explicit_bits = c[2] == 1;
             let (u, l) = (us[c[0] as usize].clone(), ls[c[1] as usize].clone());
             let mk = || -> Result<Interpreter, String> {
                 let mut tx = Transaction::new(1, 0);
@@ -651,10 +652,15 @@ pub fn spaces(tier: Tier) -> Vec<Space> {
                 txin.set_locking_script(&Script::from_bytes(&l).map_err(|e| e.to_string())?);
                 tx.add_input(&txin);
                 tx.add_output(&TxOut::new(1, &Script::from_bytes(&[0x51]).unwrap()));
-                Interpreter::from_transaction(&tx, 0).map_err(|e| e.to_string())
+                if explicit_bits {
+                    let fin = tx.get_input(0).ok_or("no input")?.get_finalised_script().map_err(|e| e.to_string())?;
+                    Ok(Interpreter::from_transaction_and_script_bits(tx, 0, fin.to_script_bits()))
+                } else {
+                    Interpreter::from_transaction(&tx, 0).map_err(|e| e.to_string())
+                }
             };
             for f in check_total(&mk, acc) {
-                let input = json!({"unlocking_hex": hex::encode(&u), "locking_hex": hex::encode(&l)});
+                let input = json!({"unlocking_hex": hex::encode(&u), "locking_hex": hex::encode(&l), "constructor": if explicit_bits { "from_transaction_and_script_bits" } else { "from_transaction" }});
                 acc.violate(f.key, case.idx, case.json(input), f.detail);
             }
         }));
